@@ -197,6 +197,76 @@ def check_patho(case):
                         round(dt, 2), 'about 0.001 s')
 
 
+# ---------------------------------------------------------------- records are the caller's own
+
+TAMPER_FORMULAS = ['', '1', '1+1', '1+', 'nosuch', 'NOSUCH(1)', '#N/A', 'B2', 'A1:B2', 'HF(1)', '"txt"', 'TRUE', 'NULL', '{1,2}', '1/0', ' ', '()']
+
+
+def check_tamper(case):
+    fs = case['f']
+    P, Q = make_parser(), make_parser()
+    first = {}
+    for f in fs:
+        r = guarded_parse(P, f, what='first evaluation')
+        first[f] = (r['result'], r['error'])
+        # the host does what it likes with the record it was given
+        r['result'] = 'tampered'
+        r['error'] = 'tampered'
+        r['cell'] = 'A2'
+        if isinstance(first[f][0], list):
+            pass
+    for f in fs:
+        for who, X in (('the same parser', P), ('another parser', Q)):
+            r = guarded_parse(X, f, what='evaluation after the host modified an earlier record')
+            if (r['result'], r['error']) != first[f] and not (isinstance(r['result'], float) and r['result'] != r['result']):
+                raise Violation('parse(%r) on %s after the host modified the record of an earlier evaluation -> %r, at first it was %r' % (f, who, r, first[f]), _safe_repr(r), _safe_repr(first[f]))
+
+
+# ---------------------------------------------------------------- termination on boundary arguments
+
+TB = [-2 ** 40, -37, -2, -1, -0.5, 0, 0.5, 0.999, 1, 1.01, 1.5, 1.9, 2, 2.5, 36, 36.5, 37, 3999, 4000, 2 ** 39, 10 ** 15, float('inf'), float('-inf'), float('nan'), '', 'a', 'aaa', '12', '1.5', None, True, False]
+TFUNCS = [('BASE', 2), ('BASE', 3), ('ROMAN', 1), ('ROMAN', 2), ('ARABIC', 1), ('SUBSTITUTE', 3), ('SUBSTITUTE', 4), ('TEXT', 2), ('DEC2HEX', 1), ('DEC2HEX', 2), ('HEX2DEC', 1), ('DECIMAL', 2), ('CHAR', 1),
+          ('ROUND', 2), ('ROUNDUP', 2), ('ROUNDDOWN', 2), ('CEILING', 2), ('FLOOR', 2), ('MOD', 2), ('QUOTIENT', 2), ('EDATE', 2), ('DATE', 3), ('TIME', 3), ('LEFT', 2), ('MID', 3), ('INDEX', 3), ('MATCH', 3), ('LARGE', 2),
+          ('CHOOSE', 2), ('RANDBETWEEN', 2), ('PV', 3), ('WEEKDAY', 2), ('DATEDIF', 3), ('TEXTJOIN', 3), ('LOG', 2), ('POWER', 2), ('COMPLEX', 2)]
+
+
+def enum_term(tier, shard, nshards):
+    i = 0
+    for name, ar in TFUNCS:
+        rng = range(len(TB))
+        if ar <= 2:
+            tuples = itertools.product(rng, repeat=ar)
+        else:
+            # arity 3/4: every pair of boundary values in the first two slots, later slots cycling through the pool
+            tuples = (t + tuple((t[0] * 5 + t[1] * 3 + k * 7) % len(TB) for k in range(ar - 2)) for t in itertools.product(rng, repeat=2))
+        for tup in tuples:
+            i += 1
+            if i % nshards == shard:
+                yield [name] + list(tup)
+
+
+def check_term(case):
+    name, idx = case[0], case[1:]
+    vals = [TB[i] for i in idx]
+    def huge(v):
+        return isinstance(v, (int, float)) and not isinstance(v, bool) and v == v and abs(v) != float('inf') and abs(v) >= 3999
+    # size-like arguments (places, counts, exponents, digits) of astronomic magnitude cost memory/time inside C primitives, which no
+    # line count can observe (DEC2HEX(1, 2^39) asks for a 550 GB string): bounded by construction, see ASSUMPTIONS
+    size_args = {'BASE': [2], 'DEC2HEX': [1], 'CHAR': [0], 'LEFT': [1], 'MID': [1, 2], 'ROUND': [1], 'ROUNDUP': [1], 'ROUNDDOWN': [1], 'POWER': [1], 'TEXT': [0, 1], 'TEXTJOIN': [0, 1, 2],
+                 'SUBSTITUTE': [3], 'RANDBETWEEN': [], 'PV': [1], 'DATE': [], 'TIME': []}
+    for k in size_args.get(name, []):
+        if k < len(vals) and huge(vals[k]):
+            raise Skip('big-integer-cost')
+    P = hot().Parser()
+    names = []
+    for k, v in enumerate(vals):
+        n = 'v_t%s' % 'abcd'[k]
+        P.set_variable(n, v)
+        names.append(n)
+    text = '%s(%s)' % (name, ','.join(names))
+    guarded_parse(P, text, 64, what='%s%r' % (name, tuple(vals)))
+
+
 # ---------------------------------------------------------------- arity sweep
 
 def pool():
@@ -479,6 +549,11 @@ LAWS = [
         classes=lambda c: (('unterminated-quote' if c['prefix'][-1:] in ('"', "'") and not c['suffix'][:1] in ('"', "'") else 'other'), 'n>=20' if c['n'] >= 20 else 'n<20'), required=('unterminated-quote', 'n>=20'),
         rule='a fragment of 1-4 characters (backslash pairs, quotes, dots, brackets, markers, operators ...) repeated 1-25 times after an opening context (an open quote, SUM(, ...) and before an optional closer - the shape that makes a backtracking '
              'token pattern explode: the record is well-formed and the evaluation uses at most 2 s of CPU time of its thread (ordinary inputs of that length take ~1 ms; CPU time, not wall clock, so machine load does not enter)'),
+    Law('own_record', check_tamper, strategy=st.fixed_dictionaries({'f': st.lists(st.sampled_from(TAMPER_FORMULAS), min_size=1, max_size=5)}), quick=300, thorough=5000, shards=(4, 8),
+        key=lambda c: 'shared-record', nontrivial=lambda c: len(c['f']) >= 2,
+        rule='1-5 formulas (incl. the empty string, blanks, errors) evaluated, each returned record then overwritten by the host (result, error, an extra key), and evaluated again on the same and on another parser: every record is again well-formed and equal to the first outcome'),
+    Law('termination', check_term, enumerate=enum_term, key=lambda c: c[0] + '-termination', shards=(8, 16), exhaustive=False,
+        rule='37 function/arity pairs with loops, repetition or size arguments x a 32-value boundary pool (-2^40 .. 10^15, fractions just above 1 such as 1.01/1.5/1.9, 36.5, inf, nan, text, blank, logicals; all pairs in the first two slots): a well-formed record within the step budget'),
     Law('arity_sweep', check_arity, enumerate=enum_arity, key=arity_key, shards=(16, 16), exhaustive=False,
         rule='every name of formulas.supported() x arity 0, 1, 2 in full over a pool of 24 values holding one or more of every type (blank, logicals, integers, floats incl. inf/nan, text, numeric text, date text, a date-time, flat / 2-D / empty arrays, an error value) '
              'plus deterministic samples of arity 3 (all 13824 tuples per function in thorough) and arity 4; same oracle, every call under the step budget'),
